@@ -635,10 +635,11 @@ def elf_info(path):
     return text, dyn, syms, scan, sect, fallback
 
 
-def run_e2e(ctx, hexe, uft, failures, cov, model_ok=True):
-    nprog = 2 if ctx.tier == "quick" else 8
-    ncfg = 2 if ctx.tier == "quick" else 5
-    builds = E2E_BUILDS[:4] if ctx.tier == "quick" else E2E_BUILDS
+def run_e2e(ctx, hexe, uft, failures, cov, model_ok=True, only=None):
+    """`only` = a replay object: re-evaluate exactly that program / build / option list"""
+    nprog = 1 if only else 2 if ctx.tier == "quick" else 8
+    ncfg = 1 if only else 2 if ctx.tier == "quick" else 5
+    builds = [(only["build"], only["flags"])] if only else E2E_BUILDS[:4] if ctx.tier == "quick" else E2E_BUILDS
     known = [f for f in C.known_findings("C14") if WITNESS in f.get("witness_theorems", [])]
     prefix_hits = 0
     wd = os.path.join(ctx.scratch, "e2e")
@@ -648,10 +649,10 @@ def run_e2e(ctx, hexe, uft, failures, cov, model_ok=True):
     sigs = set()
     samples = []
     for pi in range(nprog):
-        names, src = gen_program(ctx.rng, pi)
+        names, src = (only["names"], only["source"]) if only else gen_program(ctx.rng, pi)
         cfile = os.path.join(wd, "p%d.c" % pi)
         open(cfile, "w").write(src)
-        picks = list(range(len(builds))) if (ctx.tier == "thorough" or pi == 0) else [3, 1 + pi % 2 * 1]
+        picks = list(range(len(builds))) if (only or ctx.tier == "thorough" or pi == 0) else [3, 1 + pi % 2 * 1]
         for bi in picks:
             bname, flags = builds[bi]
             exe = os.path.join(wd, "p%d-%s" % (pi, bname))
@@ -671,7 +672,8 @@ def run_e2e(ctx, hexe, uft, failures, cov, model_ok=True):
                                          "dt 1 %s %s %s" % (sect, fallback, dt)]) if model_ok else (None, None)
             nat = subprocess.run([exe], stdout=subprocess.PIPE, stderr=subprocess.PIPE, text=True, timeout=20)
             for ci in range(ncfg):
-                ptype, opts, z = gen_e2e_config(ctx.rng, names)
+                ptype, opts, z = (only["match"], [tuple(o) for o in only["options"]], only["size_filter"]) if only \
+                    else gen_e2e_config(ctx.rng, names)
                 if len(failures) >= 3:      # enough evidence; bound the cost of a broken tree
                     continue
                 data = os.path.join(wd, "d-%d-%d-%d" % (pi, bi, ci))
@@ -686,7 +688,7 @@ def run_e2e(ctx, hexe, uft, failures, cov, model_ok=True):
                 rr = subprocess.run(cmd, stdout=subprocess.PIPE, stderr=subprocess.PIPE, text=True, cwd=wd)
                 runs += 1
                 rep = {"kind": "e2e", "program": "p%d" % pi, "build": bname, "flags": flags, "match": ptype,
-                       "options": opts, "size_filter": z, "source": src, "cmd": " ".join(cmd)}
+                       "options": opts, "size_filter": z, "names": names, "source": src, "cmd": " ".join(cmd)}
                 if rr.returncode != 0 or rr.stdout != nat.stdout:
                     failures.append(("e2e-output", rep, "program output under uftrace differs from native (rc=%d): %r vs %r"
                                      % (rr.returncode, rr.stdout[-200:], nat.stdout[-200:]), True))
@@ -994,15 +996,28 @@ def run(ctx):
 
 def replay(ctx, path):
     r = json.load(open(path))
-    print(json.dumps({k: v for k, v in r.items() if k not in ("source",)}, indent=1)[:6000])
-    case = r.get("harness_case")
-    if not case:
-        return 0
+    print(json.dumps({k: v for k, v in r.items() if k not in ("source", "stderr")}, indent=1)[:6000])
     ctx.snapshot()
     hexe, okc, log = build_harness(ctx)
     if not okc:
         print(log)
         return 2
+    if r.get("source") and r.get("names"):
+        # end-to-end case: rebuild the program, run it under the snapshot's uftrace again
+        okm, mlog = ctx.make()
+        if not okm:
+            print(mlog[-2000:])
+            return 2
+        fails, cov = [], {}
+        run_e2e(ctx, hexe, os.path.join(ctx.src, "uftrace"), fails, cov, True, only=r)
+        for name, rep, what, is_mon in fails:
+            print("STILL FAILING (%s): %s" % ("property" if is_mon else "model/code", what))
+        if not fails:
+            print("no failure on this tree")
+        return 1 if fails else 0
+    case = r.get("harness_case")
+    if not case:
+        return 0
     p = subprocess.run([hexe], input=case + "\n", stdout=subprocess.PIPE, stderr=subprocess.PIPE, text=True)
     lines = p.stdout.split("\n")
     m = [l[6:] for l in lines if l.startswith("MODEL ")]
@@ -1013,4 +1028,11 @@ def replay(ctx, path):
     mo = run_model(m)
     print("impl :", im[0][:500])
     print("model:", mo[0][:500])
-    return 0 if C.norm(im[0]) == C.norm(mo[0]) else 1
+    bad = None
+    if r.get("desc") and r["desc"].get("kind") in MONITORS and not r["desc"].get("corpus"):
+        try:
+            bad = MONITORS[r["desc"]["kind"]](r["desc"], m[0], C.norm(im[0]))
+        except Exception as e:
+            bad = "monitor could not parse implementation output: %r" % (e,)
+        print("monitor:", bad or "ok")
+    return 0 if (C.norm(im[0]) == C.norm(mo[0]) and not bad) else 1
